@@ -43,7 +43,7 @@ FAMS = [f for f in kernels.FAMILIES if len(f[0]) <= 2]
 
 
 def generate(rng, tier, shard, nshards, mon):
-    n = (720 if tier == "quick" else 8000) // nshards
+    n = (720 if tier == "quick" else 40000) // nshards
     for i in range(n):
         if i % 5 == 3:
             e = [rng.randint(1, 3), rng.randint(1, 3), rng.randint(1, 4)]
